@@ -369,48 +369,8 @@ mod v_iface_pollat {
             }
         }
 
-        /// Same obligation with a socket that has a *timed* deadline: a TCP socket in SYN-SENT whose SYN
-        /// went out at a symbolic instant (through its own dispatch), SLAAC with its budget spent.
-        /// (While the sockets have no deadline, Interface::poll_at loses the SLAAC deadline altogether -
-        /// see poll_at_combination - so a stale SLAAC deadline only shows next to a finite socket deadline.)
-        fn nonspin_tcp_path() {
-            let mut dev = AskDev { medium: Medium::Ethernet, asked: 0 };
-            let now = any_us(0, T_MAX);
-            let nowi = us(now);
-            let mut iface = Interface::new(config(true, true), &mut dev, us(0));
-            iface.inner.ip_addrs.push(IpCidr::Ipv6(Ipv6Cidr::new(LL, 64))).unwrap();
-            slaac_history(&mut iface, now, 2);
-            let mut trx = [0u8; 4];
-            let mut ttx = [0u8; 4];
-            let mut storage = [SocketStorage::EMPTY];
-            let mut sockets = SocketSet::new(&mut storage[..]);
-            let mut t0 = stcp::Socket::new(stcp::SocketBuffer::new(&mut trx[..]), stcp::SocketBuffer::new(&mut ttx[..]));
-            let t_syn = any_us(0, now);
-            iface.inner.now = us(t_syn);
-            t0.connect(&mut iface.inner, (IpAddress::Ipv6(PEER), 80u16), 4000u16).unwrap();
-            let _ = t0.dispatch(&mut iface.inner, |_cx, _pkt| -> core::result::Result<(), ()> { Ok(()) });
-            sockets.add(t0);
-            crate::vdump!("PRE now={} slaac={:?} tcp SYN sent at {}", nowi, iface.inner.slaac, us(t_syn));
-            let res = iface.poll(nowi, &mut dev, &mut sockets);
-            let asked = dev.asked;
-            let d_sock = sockets_deadline(&mut iface, &sockets, nowi);
-            let d = iface.poll_at(nowi, &sockets);
-            crate::vdump!("POST transmit attempts={} poll={:?} slaac={:?} socket deadline={:?} poll_at={:?} poll_delay={:?}", asked, res, iface.inner.slaac, d_sock, d, iface.poll_delay(nowi, &sockets));
-            kani::cover!(asked == 0 && d_sock.is_some() && d_sock.unwrap() > nowi, "idle poll, retransmission timer running");
-            if asked == 0 {
-                assert!(d.is_none() || d.unwrap() > nowi, "prop:c13_iface_idle_poll_leaves_future_deadline");
-            }
-        }
-
         pub(super) fn nonspin_body() {
-            let h: u8 = kani::any();
-            match h {
-                0 => nonspin_path(0),
-                1 => nonspin_path(1),
-                2 => nonspin_path(5),
-                3 => nonspin_path(2),
-                _ => nonspin_tcp_path(),
-            }
+            histories!(nonspin_path);
         }
 
         fn early_path(tag: u8) {
@@ -467,7 +427,7 @@ mod v_iface_pollat {
         v6::combination_two_body();
     }
 
-    // @harness props=C13 cfg=KI6 tier=q to=900 mem=8 unwind=18 opts=nomem covers=4 funcs=Interface::poll;Interface::poll_at;Interface::poll_egress;Interface::poll_maintenance;Interface::ndisc_rs_egress;Interface::socket_egress;Interface::socket_ingress;tcp::Socket::dispatch;tcp::Socket::poll_at bounds=real_Interface::poll_on_Ethernet_with_SLAAC_enabled;_4_SLAAC_histories_as_concrete_paths,_all_in_the_soliciting_phases_(Start_|_1_|_2_|_3_unanswered_solicitations),_events_at_symbolic_instants;_device_without_pending_frames_that_counts_requested_transmit_tokens_and_grants_none_(claims_only_for_polls_that_request_none:_those_run_as_on_an_accepting_device);_one_UDP_socket_with_0..=1_queued_datagram,_or_(5th_path,_solicitations_exhausted)_one_TCP_socket_in_SYN-SENT_with_its_retransmission_timer_at_a_symbolic_instant;_fragmenter_empty;_no_multicast_join_pending;_now_<2^50_us
+    // @harness props=C13 cfg=KI6 tier=q to=900 mem=8 unwind=18 opts=nomem covers=3 funcs=Interface::poll;Interface::poll_at;Interface::poll_egress;Interface::poll_maintenance;Interface::ndisc_rs_egress;Interface::socket_egress;Interface::socket_ingress bounds=real_Interface::poll_on_Ethernet_with_SLAAC_enabled;_4_SLAAC_histories_as_concrete_paths,_all_in_the_soliciting_phases_(Start_|_1_|_2_|_3_unanswered_solicitations),_events_at_symbolic_instants;_device_without_pending_frames_that_counts_requested_transmit_tokens_and_grants_none_(claims_only_for_polls_that_request_none:_those_run_as_on_an_accepting_device);_one_UDP_socket_with_0..=1_queued_datagram;_fragmenter_empty;_no_multicast_join_pending;_now_<2^50_us
     #[kani::proof]
     pub(crate) fn poll_nonspin_iface() {
         #[cfg(feature = "proto-ipv6-slaac")]
